@@ -843,5 +843,9 @@ m("c15-burn-from-blocked-address", "C15", "x/evm/keeper/statedb.go",
   "\t\tif k.bankKeeper.BlockedAddr(cosmosAddr) {\n\t\t\treturn errorsmod.Wrapf(errortypes.ErrUnauthorized, \"cannot burn from blocked address %s\", cosmosAddr)\n\t\t}\n", "\t\t_ = errortypes.ErrUnauthorized\n",
   "burn-branch-refuses-blocked", "a stale pool balance is written back and the difference burned")
 
+m("c09-validate-rejects-equal-times", "C09", "x/vesting/types/clawback_vesting_account.go",
+  "\tif va.GetStartTime() > va.GetEndTime() {", "\tif va.GetStartTime() >= va.GetEndTime() {",
+  "accepts-start-equal-end", "a fully clawed-back account is invalid")
+
 json.dump(M, open('/verif/mutants.json', 'w'), indent=1)
 print(len(M), "mutants written")
